@@ -820,6 +820,8 @@ ares_status_t ares_servers_update(ares_channel_t *channel,
         /* Index changed, reinsert node, doesn't require any memory
          * allocations so can't fail. */
         ares_slist_node_reinsert(snode);
+        /* The order of preference is part of the configuration */
+        list_changed = ARES_TRUE;
       }
     } else {
       status = ares_server_create(channel, sconfig, idx);
